@@ -595,8 +595,11 @@ class World:
             return self._skip(rec, "not-forward")
         spec = op["arg"]
         base, x = make_tensor(spec)
+        leaf = x
         if op.get("requires_grad"):
             x.requires_grad_(True)
+            if op.get("nonleaf"):
+                x = leaf * 1.0        # the module sees a non-leaf tensor of an existing graph
         before = storage_bytes(base)
         shape0 = tuple(x.shape)
         rec["family"] = inst.family
@@ -618,7 +621,7 @@ class World:
         # I1: arguments untouched (also after a faulted call)
         if storage_bytes(base) != before:
             self.violation("I1-arg-mutated", rec, "input tensor storage changed by the call")
-        elif bool(x.requires_grad) != bool(op.get("requires_grad")) or x.grad is not None \
+        elif bool(x.requires_grad) != bool(op.get("requires_grad")) or leaf.grad is not None \
                 or tuple(x.shape) != shape0:
             self.violation("I1-arg-mutated", rec, "input tensor metadata (requires_grad / .grad / "
                            "shape) changed by the call")
@@ -626,7 +629,7 @@ class World:
         if status == "ok":
             rec["out_snap"] = snap(val)
             rec["out_digest"] = snap_digest(rec["out_snap"])
-            h = Handle(rec, val, [x] if x.requires_grad else [], inst.family, "fwd", [base], [inst])
+            h = Handle(rec, val, [leaf] if leaf.requires_grad else [], inst.family, "fwd", [base], [inst])
             cl.regs[op["out"]] = h
             self.handles.append(h)
         else:
@@ -744,9 +747,10 @@ class World:
         for inst in h.insts:
             inst.inflight += 1
         try:
+            cg = bool(op.get("create_graph"))
             status, val = cl.guarded(
-                lambda: torch.autograd.grad(outs, inputs, cots, retain_graph=retain,
-                                            allow_unused=True))
+                lambda: torch.autograd.grad(outs, inputs, cots, retain_graph=retain or cg,
+                                            create_graph=cg, allow_unused=True))
         finally:
             for inst in h.insts:
                 inst.inflight -= 1
